@@ -68,10 +68,10 @@ CONVEX = ('spdquad', 'quartic', 'softplus')
 @st.composite
 def coefficients(draw, n, family=None, cond_exp=(0.0, 8.0)):
     fam = family or FAMILIES[draw(st.integers(0, len(FAMILIES) - 1))]
-    G = onp.array(draw(st.lists(st.floats(-1, 1), min_size=n * n, max_size=n * n))).reshape(n, n)
+    G = onp.array(draw(st.lists(gen.floats(-1, 1), min_size=n * n, max_size=n * n))).reshape(n, n)
     Q, _ = onp.linalg.qr(G + 3 * onp.eye(n))
-    u = onp.array(sorted(draw(st.lists(st.floats(0, 1), min_size=n, max_size=n))))
-    ce = draw(st.floats(*cond_exp))
+    u = onp.array(sorted(draw(st.lists(gen.floats(0, 1), min_size=n, max_size=n))))
+    ce = draw(gen.floats(*cond_exp))
     lam = 10.0 ** (-ce * u)
     q = r = 0.0
     c = onp.zeros(M)
@@ -79,7 +79,7 @@ def coefficients(draw, n, family=None, cond_exp=(0.0, 8.0)):
     s = onp.zeros(M)
     w = onp.zeros((M, n))
     d = onp.zeros(M)
-    b = onp.array(draw(st.lists(st.floats(-2, 2), min_size=n, max_size=n)))
+    b = onp.array(draw(st.lists(gen.floats(-2, 2), min_size=n, max_size=n)))
     if fam == 'quartic':
         q = draw(gen.logfloat(-2, 1))
     elif fam == 'indefinite':
@@ -96,13 +96,13 @@ def coefficients(draw, n, family=None, cond_exp=(0.0, 8.0)):
         q = 1e-3
     elif fam == 'cos':
         lam = lam * 1e-2 + 1e-3
-        c = onp.array(draw(st.lists(st.floats(-2, 2), min_size=M, max_size=M)))
-        a = onp.array(draw(st.lists(st.floats(-3, 3), min_size=M * n, max_size=M * n))).reshape(M, n)
+        c = onp.array(draw(st.lists(gen.floats(-2, 2), min_size=M, max_size=M)))
+        a = onp.array(draw(st.lists(gen.floats(-3, 3), min_size=M * n, max_size=M * n))).reshape(M, n)
     elif fam == 'softplus':
         lam = lam * 1e-2 + 1e-3
-        s = onp.array(draw(st.lists(st.floats(0.1, 3), min_size=M, max_size=M)))
-        w = onp.array(draw(st.lists(st.floats(-2, 2), min_size=M * n, max_size=M * n))).reshape(M, n)
-        d = onp.array(draw(st.lists(st.floats(-2, 2), min_size=M, max_size=M)))
+        s = onp.array(draw(st.lists(gen.floats(0.1, 3), min_size=M, max_size=M)))
+        w = onp.array(draw(st.lists(gen.floats(-2, 2), min_size=M * n, max_size=M * n))).reshape(M, n)
+        d = onp.array(draw(st.lists(gen.floats(-2, 2), min_size=M, max_size=M)))
     scale = draw(gen.logfloat(-2, 2))
     A = (Q * lam) @ Q.T
     A = 0.5 * (A + A.T)
